@@ -36,3 +36,32 @@ def _(c):
     c.ensures(f"implies({refl} and not truthy(final('left_errors')) and not truthy(final('right_errors')) and not is_any({R}) and not reflected_has_priority(left_composite, right_composite, entry[3]), same(result, {L}))", name="left_method_wins_when_both_succeed_and_the_right_operand_has_no_priority")
     c.ensures(f"implies({refl} and not truthy(final('left_errors')) and not truthy(final('right_errors')) and reflected_has_priority(left_composite, right_composite, entry[3]), same(result, {R}))",
               name="reflected_method_first_when_the_right_operand_is_a_proper_subclass_overriding_it")
+
+
+@REG.static_check("C19.operator_table", props=P)
+def _():
+    """the dispatch table read by _visit_binop_no_mvv (re-read from the source on every run): every arithmetic / bitwise
+    operator names CPython's own slot triple (__op__, __iop__, __rop__) for its ast node, as operator documents them"""
+    import ast as _ast
+    from pyvc import extract
+    mod = extract.get_module("pyanalyze.name_check_visitor")
+    node = mod.assigns.get("BINARY_OPERATION_TO_DESCRIPTION_AND_METHOD")
+    want = {"Add": "add", "Sub": "sub", "Mult": "mul", "Div": "truediv", "FloorDiv": "floordiv", "Mod": "mod", "Pow": "pow", "LShift": "lshift", "RShift": "rshift",
+            "BitOr": "or", "BitXor": "xor", "BitAnd": "and", "MatMult": "matmul"}
+    out = []
+    if not isinstance(node, _ast.Dict):
+        return [{"name": "C19.operator_table:shape", "ok": False, "detail": "BINARY_OPERATION_TO_DESCRIPTION_AND_METHOD is no longer a dict display: the table cannot be read"}]
+    seen = set()
+    for k, v in zip(node.keys, node.values):
+        op = _ast.unparse(k).replace("ast.", "")
+        if op not in want or not isinstance(v, _ast.Tuple) or len(v.elts) != 4:
+            continue
+        seen.add(op)
+        got = tuple(e.value if isinstance(e, _ast.Constant) else None for e in v.elts[1:])
+        stem = want[op]
+        exp = (f"__{stem}__", f"__i{stem}__", f"__r{stem}__")
+        out.append({"name": f"C19.operator_table:{op}", "ok": got == exp,
+                    "detail": f"ast.{op}: table gives {got}, CPython's slots for this operator are {exp}" if got != exp else f"ast.{op} -> {exp}"})
+    for op in sorted(set(want) - seen):
+        out.append({"name": f"C19.operator_table:{op}", "ok": False, "detail": f"ast.{op} has no 4-tuple row in the table"})
+    return out
